@@ -155,6 +155,7 @@ type World struct {
 	idle             bool
 
 	started        bool
+	drawTrace      []uint64
 	clientsRunning int
 	notes          []string
 }
@@ -309,6 +310,8 @@ func (w *World) crash() {
 	w.mu.Unlock()
 }
 
+var TraceDraws bool
+
 type enabledItem struct {
 	key string
 	p   *parked
@@ -365,6 +368,12 @@ func (w *World) Run() {
 		}
 		items := w.enabledList()
 		w.step++
+		// re-pin the runtime's random sequence at every step: draws made by lazily
+		// initialised process-wide state (first run only) cannot shift later steps
+		simSetPinRand((uint64(w.cfg.Seed)*0x9e3779b97f4a7c15 + uint64(w.step)*0xbf58476d1ce4e5b9) | 1)
+		if TraceDraws {
+			w.drawTrace = append(w.drawTrace, simGetPinCount())
+		}
 		ch := w.choose(items)
 		if w.diverged != "" {
 			return
